@@ -39,9 +39,12 @@ import (
 
 	"github.com/ethereum/go-ethereum/common"
 	"github.com/ethereum/go-ethereum/crypto"
+	"github.com/libp2p/go-libp2p/core/peer"
+	ma "github.com/multiformats/go-multiaddr"
 	preconfpb "github.com/primevprotocol/mev-commit/gen/go/preconfirmation/v1"
 	mockkeysigner "github.com/primevprotocol/mev-commit/pkg/keysigner/mock"
 	"github.com/primevprotocol/mev-commit/pkg/p2p"
+	"github.com/primevprotocol/mev-commit/pkg/p2p/libp2p"
 	"github.com/primevprotocol/mev-commit/pkg/preconfirmation"
 	signer "github.com/primevprotocol/mev-commit/pkg/signer/preconfsigner"
 	"github.com/primevprotocol/mev-commit/pkg/topology"
@@ -74,6 +77,11 @@ type c05In struct {
 	DE         int64       `json:"de"`
 	Peers      []c05PeerIn `json:"peers"`
 	Deadline   int         `json:"deadline"`
+	// Real: class real-stream. The bidder and every provider are real libp2p.Service instances
+	// on loopback, the providers' preconfirmation handler is scripted, the deadline is a real
+	// context deadline. Abstract times: a provider with Time < Deadline acts at once, one with
+	// Time >= Deadline only after the deadline has passed.
+	Real bool `json:"real,omitempty"`
 }
 
 var c05Kinds = []struct {
@@ -682,6 +690,290 @@ func c05RunCase(in c05In, slow int) (obs c05Obs) {
 }
 
 // ---------------------------------------------------------------------------------------------
+// class real-stream: the same call over real libp2p services
+// ---------------------------------------------------------------------------------------------
+
+// kinds that can be scripted through a real provider-side handler
+var c05RealKinds = []string{"honest", "honest-spoofprov", "otherbid-fields", "samebid-vrespelled", "foreign-key",
+	"tamper", "shortsig", "nilparts", "garbage", "errframe", "silence", "reset", "eof", "twoframes", "newstream-err"}
+
+type c05Registry struct{}
+
+func (c05Registry) CheckProviderRegistered(context.Context, common.Address) bool { return true }
+
+// recording p2p.Streamer around the real service: which peers were dialled, what was written;
+// reads go straight to the real stream
+type c05RecStream struct {
+	p2p.Stream
+	addr   common.Address
+	mu     sync.Mutex
+	writes [][]byte
+}
+
+func (s *c05RecStream) WriteMsg(ctx context.Context, m proto.Message) error {
+	b := c05Marshal(m)
+	s.mu.Lock()
+	s.writes = append(s.writes, b)
+	s.mu.Unlock()
+	return s.Stream.WriteMsg(ctx, m)
+}
+
+type c05RecStreamer struct {
+	inner    p2p.Streamer
+	mu       sync.Mutex
+	contacts []*c05RecStream
+}
+
+func (r *c05RecStreamer) NewStream(ctx context.Context, pe p2p.Peer, h p2p.Header, d p2p.StreamDesc) (p2p.Stream, error) {
+	rs := &c05RecStream{addr: pe.EthAddress}
+	r.mu.Lock()
+	r.contacts = append(r.contacts, rs)
+	r.mu.Unlock()
+	st, err := r.inner.NewStream(ctx, pe, h, d)
+	if err != nil {
+		return nil, err
+	}
+	rs.Stream = st
+	return rs, nil
+}
+
+// a message whose wire form is exactly [raw]
+func c05RawMsg(raw []byte) proto.Message {
+	m := &preconfpb.PreConfirmation{}
+	m.ProtoReflect().SetUnknown(raw)
+	return m
+}
+
+func c05ServiceInfo(svc *libp2p.Service) ([]byte, error) {
+	self := svc.Self()
+	id, err := peer.Decode(fmt.Sprint(self["Underlay"]))
+	if err != nil {
+		return nil, err
+	}
+	addrs, ok := self["Addresses"].([]ma.Multiaddr)
+	if !ok || len(addrs) == 0 {
+		return nil, errors.New("service reports no addresses")
+	}
+	return peer.AddrInfo{ID: id, Addrs: addrs}.MarshalJSON()
+}
+
+var errC05Setup = errors.New("c05: environment could not be set up")
+
+// c05RunReal: skip != "" means the environment (services, connections) could not be built; such a
+// case says nothing about SendBid and is not emitted.
+func c05RunReal(in c05In, slow int) (obs c05Obs, skip string) {
+	obs.Closed = -1
+	pr := c05Prepare(in)
+	logger := slog.New(slog.NewTextHandler(io.Discard, nil))
+	deadline := time.Duration(slow) * 1200 * time.Millisecond
+	lateAfter := deadline + time.Duration(slow)*400*time.Millisecond
+	window := deadline + time.Duration(slow)*3*time.Second
+
+	var closers []io.Closer
+	lateRel, endRel := make(chan struct{}), make(chan struct{})
+	defer func() {
+		close(endRel)
+		done := make(chan struct{})
+		go func() {
+			for _, c := range closers {
+				_ = c.Close()
+			}
+			close(done)
+		}()
+		select {
+		case <-done:
+		case <-time.After(time.Duration(slow) * 5 * time.Second):
+		}
+	}()
+
+	mk := func(key *ecdsa.PrivateKey, typ p2p.PeerType) (*libp2p.Service, error) {
+		var svc *libp2p.Service
+		var err error
+		for attempt := 0; attempt < 3; attempt++ {
+			svc, err = libp2p.New(&libp2p.Options{
+				KeySigner:  mockkeysigner.NewMockKeySigner(key, crypto.PubkeyToAddress(key.PublicKey)),
+				Secret:     "verif-c05",
+				PeerType:   typ,
+				Register:   c05Registry{},
+				ListenPort: 0,
+				ListenAddr: "127.0.0.1",
+				Logger:     logger,
+			})
+			if err == nil {
+				closers = append(closers, svc)
+				return svc, nil
+			}
+			time.Sleep(100 * time.Millisecond)
+		}
+		return nil, err
+	}
+
+	bidderSvc, err := mk(c05Key(in.BidderKey), p2p.PeerTypeBidder)
+	if err != nil {
+		return obs, "bidder service: " + err.Error()
+	}
+	topo := topology.New(bidderSvc, logger)
+	bidderSvc.SetNotifier(topo) // as node.NewNode wires it: inbound peers reach the topology
+	info, err := c05ServiceInfo(bidderSvc)
+	if err != nil {
+		return obs, "bidder address: " + err.Error()
+	}
+
+	desc := p2p.StreamDesc{Name: preconfirmation.ProtocolName, Version: preconfirmation.ProtocolVersion}
+	for _, pp := range pr.peers {
+		pp := pp
+		if pp.typ != p2p.PeerTypeProvider {
+			return obs, "real-stream cases contain providers only"
+		}
+		svc, err := mk(c05Key(pp.in.Key), p2p.PeerTypeProvider)
+		if err != nil {
+			return obs, "provider service: " + err.Error()
+		}
+		late := pp.in.Time >= in.Deadline
+		if pp.mode != c05ModeNewStreamErr {
+			d := desc
+			d.Handler = func(ctx context.Context, _ p2p.Peer, st p2p.Stream) error {
+				bid := new(preconfpb.Bid)
+				if err := st.ReadMsg(ctx, bid); err != nil {
+					return nil
+				}
+				if late {
+					select {
+					case <-lateRel:
+					case <-endRel:
+						return nil
+					}
+				}
+				switch pp.mode {
+				case c05ModeSilence:
+					<-endRel
+					return nil
+				case c05ModeErrFrame:
+					return status.Error(codes.Internal, "bid rejected")
+				case c05ModeReadErr:
+					if pp.in.Kind == "eof" {
+						return nil // the stream is closed without an answer
+					}
+					_ = st.Reset()
+					return nil
+				case c05ModeFrames:
+					for _, fr := range pp.frames {
+						if err := st.WriteMsg(ctx, c05RawMsg(fr)); err != nil {
+							return nil
+						}
+					}
+					return nil // the service closes the stream, as after a real handleBid
+				}
+				return nil
+			}
+			svc.AddStreamHandlers(d)
+		}
+		var cerr error
+		for attempt := 0; attempt < 3; attempt++ {
+			cctx, ccancel := context.WithTimeout(context.Background(), time.Duration(slow)*10*time.Second)
+			_, cerr = svc.Connect(cctx, info)
+			ccancel()
+			if cerr == nil {
+				break
+			}
+			time.Sleep(200 * time.Millisecond)
+		}
+		if cerr != nil {
+			return obs, "connect: " + cerr.Error()
+		}
+	}
+	// the bidder's topology has seen every provider (inbound handshakes completed)
+	want := len(pr.peers)
+	dl := time.Now().Add(time.Duration(slow) * 10 * time.Second)
+	for len(topo.GetPeers(topology.Query{Type: p2p.PeerTypeProvider})) < want {
+		if time.Now().After(dl) {
+			return obs, "providers did not appear in the bidder's topology"
+		}
+		time.Sleep(5 * time.Millisecond)
+	}
+
+	rec := &c05RecStreamer{inner: bidderSvc}
+	ws := &c05Signer{Signer: pr.bidder}
+	svc := preconfirmation.New(topo, rec, ws, nil, nil, nil, logger)
+	collect := func() {
+		obs.Csb = ws.calls
+		rec.mu.Lock()
+		for _, c := range rec.contacts {
+			c.mu.Lock()
+			obs.Contacted = append(obs.Contacted, c05Contact{Addr: hex.EncodeToString(c.addr.Bytes()),
+				Writes: append([][]byte(nil), c.writes...)})
+			c.mu.Unlock()
+		}
+		rec.mu.Unlock()
+		sort.SliceStable(obs.Contacted, func(i, j int) bool { return obs.Contacted[i].Addr < obs.Contacted[j].Addr })
+		sort.SliceStable(obs.Delivered, func(i, j int) bool {
+			if obs.Delivered[i].Step != obs.Delivered[j].Step {
+				return obs.Delivered[i].Step < obs.Delivered[j].Step
+			}
+			return string(obs.Delivered[i].Msg) < string(obs.Delivered[j].Msg)
+		})
+	}
+	defer collect()
+
+	ctx, cancel := context.WithTimeout(context.Background(), deadline)
+	defer cancel()
+	t0 := time.Now()
+	var ch chan *preconfpb.PreConfirmation
+	panicked := false
+	func() {
+		defer func() {
+			if r := recover(); r != nil {
+				panicked = true
+				obs.Note = fmt.Sprint(r)
+			}
+		}()
+		ch, err = svc.SendBid(ctx, in.Tx, in.Amt, in.BN, in.DS, in.DE)
+	}()
+	if panicked {
+		obs.Ret = 2
+		return obs, ""
+	}
+	if err != nil || ch == nil {
+		obs.Ret = 1
+		return obs, ""
+	}
+	lateT := time.NewTimer(lateAfter)
+	defer lateT.Stop()
+	limit := time.NewTimer(window)
+	defer limit.Stop()
+	lateC := lateT.C
+	for {
+		select {
+		case c, ok := <-ch:
+			el := time.Since(t0)
+			if !ok {
+				// closed clearly before the deadline = when the last answer came (abstract time 1);
+				// otherwise it was the deadline that ended the call
+				if el < deadline/2 {
+					obs.Closed = 1
+				} else {
+					obs.Closed = in.Deadline
+				}
+				obs.GorBack = true
+				return obs, ""
+			}
+			step := 1
+			if el >= deadline {
+				step = in.Deadline + 1
+			}
+			obs.Delivered = append(obs.Delivered, c05Deliv{Step: step, Msg: c05Marshal(c)})
+		case <-lateC:
+			close(lateRel)
+			lateC = nil
+		case <-limit.C:
+			obs.Ret = 3
+			obs.Note = fmt.Sprintf("result channel still open %v after the call, deadline %v", window, deadline)
+			return obs, ""
+		}
+	}
+}
+
+// ---------------------------------------------------------------------------------------------
 // child process protocol
 // ---------------------------------------------------------------------------------------------
 
@@ -689,6 +981,7 @@ type c05ChildLine struct {
 	I     int     `json:"i"`
 	Start bool    `json:"start,omitempty"`
 	Obs   *c05Obs `json:"obs,omitempty"`
+	Skip  string  `json:"skip,omitempty"`
 }
 
 func c05Child(t *testing.T) {
@@ -711,6 +1004,38 @@ func c05Child(t *testing.T) {
 		f.Write(append(b, '\n'))
 	}
 	lines := strings.Split(strings.TrimSpace(string(data)), "\n")
+	if os.Getenv("VERIF_C05_CHILD_MODE") == "real" {
+		// all cases at once, each on its own services; "only" restricts to one case
+		only := -1
+		if v := os.Getenv("VERIF_C05_CHILD_ONLY"); v != "" {
+			only, _ = strconv.Atoi(v)
+		}
+		var mu sync.Mutex
+		var wg sync.WaitGroup
+		for i := range lines {
+			if only >= 0 && i != only {
+				continue
+			}
+			var in c05In
+			if err := json.Unmarshal([]byte(lines[i]), &in); err != nil {
+				t.Fatalf("c05 child: bad input %d: %v", i, err)
+			}
+			wg.Add(1)
+			go func(i int, in c05In) {
+				defer wg.Done()
+				obs, skip := c05RunReal(in, slow)
+				mu.Lock()
+				defer mu.Unlock()
+				if skip != "" {
+					put(c05ChildLine{I: i, Skip: skip})
+				} else {
+					put(c05ChildLine{I: i, Obs: &obs})
+				}
+			}(i, in)
+		}
+		wg.Wait()
+		return
+	}
 	for i := from; i < len(lines); i++ {
 		var in c05In
 		if err := json.Unmarshal([]byte(lines[i]), &in); err != nil {
@@ -793,6 +1118,86 @@ func c05RunAll(t *testing.T, dir string, ins []c05In, slow int) []c05Obs {
 		from = done + 1
 	}
 	return out
+}
+
+// c05RunAllReal runs the real-stream inputs concurrently in one child process (a second attempt
+// runs whatever is left one case per process). ok[i] = false: the environment could not be built
+// for that case (not emitted). A case in which the process died is observed as Ret 2, one that the
+// wall-clock limit had to end as Ret 3.
+func c05RunAllReal(t *testing.T, dir string, ins []c05In, slow int) ([]c05Obs, []bool) {
+	out := make([]c05Obs, len(ins))
+	ok := make([]bool, len(ins))
+	have := make([]bool, len(ins))
+	if len(ins) == 0 {
+		return out, ok
+	}
+	inPath := filepath.Join(dir, fmt.Sprintf("c05_real_%d.in.jsonl", os.Getpid()))
+	resPath := filepath.Join(dir, fmt.Sprintf("c05_real_%d.res.jsonl", os.Getpid()))
+	defer os.Remove(inPath)
+	defer os.Remove(resPath)
+	var sb strings.Builder
+	for _, in := range ins {
+		b, _ := json.Marshal(in)
+		sb.Write(b)
+		sb.WriteByte('\n')
+	}
+	if err := os.WriteFile(inPath, []byte(sb.String()), 0o644); err != nil {
+		t.Fatalf("c05: %v", err)
+	}
+	run := func(only int) (timedOut bool, output string) {
+		os.Remove(resPath)
+		ctx, cancel := context.WithTimeout(context.Background(), time.Duration(slow)*90*time.Second)
+		defer cancel()
+		cmd := exec.CommandContext(ctx, os.Args[0], "-test.run", "^TestVerifC05$", "-test.count=1", "-test.timeout=0")
+		cmd.Env = append(os.Environ(), "VERIF_C05_CHILD_IN="+inPath, "VERIF_C05_CHILD_RES="+resPath,
+			"VERIF_C05_CHILD_MODE=real", "VERIF_SLOW="+strconv.Itoa(slow))
+		if only >= 0 {
+			cmd.Env = append(cmd.Env, "VERIF_C05_CHILD_ONLY="+strconv.Itoa(only))
+		}
+		outb, _ := cmd.CombinedOutput()
+		timedOut = ctx.Err() != nil
+		if f, err := os.Open(resPath); err == nil {
+			sc := bufio.NewScanner(f)
+			sc.Buffer(make([]byte, 1<<20), 1<<26)
+			for sc.Scan() {
+				var l c05ChildLine
+				if json.Unmarshal(sc.Bytes(), &l) != nil || l.I < 0 || l.I >= len(ins) || have[l.I] {
+					continue
+				}
+				if l.Obs != nil {
+					out[l.I], ok[l.I], have[l.I] = *l.Obs, true, true
+				} else if l.Skip != "" {
+					t.Logf("c05 real-stream case %d not run: %s", l.I, l.Skip)
+					have[l.I] = true
+				}
+			}
+			f.Close()
+		}
+		return timedOut, string(outb)
+	}
+	run(-1)
+	for i := range ins {
+		if have[i] {
+			continue
+		}
+		timedOut, output := run(i)
+		if have[i] {
+			continue
+		}
+		note := output
+		if j := strings.Index(note, "panic:"); j >= 0 {
+			note = note[j:]
+		}
+		if len(note) > 300 {
+			note = note[:300]
+		}
+		ret := 2
+		if timedOut {
+			ret = 3
+		}
+		out[i], ok[i], have[i] = c05Obs{Ret: ret, Closed: -1, Note: note}, true, true
+	}
+	return out, ok
 }
 
 // ---------------------------------------------------------------------------------------------
@@ -1105,6 +1510,37 @@ func TestVerifC05(t *testing.T) {
 			bad(&in)
 			add("refused:"+strconv.Itoa(i), in)
 		}
+		// real-stream: real libp2p services on loopback, scripted provider handlers, a real deadline
+		realCase := func(ps ...c05PeerIn) {
+			in := g.base()
+			in.Real, in.Deadline, in.Peers = true, 2, ps
+			add("real-stream", in)
+		}
+		realCase(g.peer(0, "provider", "honest", 0, 1))
+		realCase(g.peer(0, "provider", "silence", 0, 1))
+		realCase(g.peer(0, "provider", "reset", 0, 1))
+		realCase(g.peer(0, "provider", "garbage", 1, 1))
+		realCase(g.peer(0, "provider", "honest", 0, 3)) // the answer comes after the deadline
+		realCase(g.peer(0, "provider", "honest", 0, 1), g.peer(1, "provider", "silence", 0, 1))
+		realCase(g.peer(0, "provider", "otherbid-fields", 0, 1), g.peer(1, "provider", "honest", 0, 3),
+			g.peer(2, "provider", "errframe", 0, 1))
+		realCase(g.peer(0, "provider", "newstream-err", 0, 1), g.peer(1, "provider", "honest", 0, 1))
+		nreal := 0
+		if e.Tier != "quick" {
+			nreal = 4 + e.N/600
+		}
+		for i := 0; i < nreal; i++ {
+			var ps []c05PeerIn
+			for j := 0; j < 1+g.r.Intn(3); j++ {
+				k := c05RealKinds[g.r.Intn(len(c05RealKinds))]
+				tm := 1
+				if k != "newstream-err" && g.r.Intn(3) == 0 {
+					tm = 3
+				}
+				ps = append(ps, g.peer(j, "provider", k, g.r.Intn(8), tm))
+			}
+			realCase(ps...)
+		}
 		// random provider sets, scripts, arrival orders and deadlines
 		for i := 0; i < e.N; i++ {
 			in := g.base()
@@ -1131,12 +1567,36 @@ func TestVerifC05(t *testing.T) {
 		}
 	}
 
-	ins := make([]c05In, len(items))
+	// scripted-stream cases and real-stream cases run side by side, in separate processes
+	var fake, real []c05In
+	var fakeIdx, realIdx []int
 	for i := range items {
-		ins[i] = items[i].in
+		if items[i].in.Real {
+			real, realIdx = append(real, items[i].in), append(realIdx, i)
+		} else {
+			fake, fakeIdx = append(fake, items[i].in), append(fakeIdx, i)
+		}
 	}
-	obs := c05RunAll(t, dir, ins, e.Slow)
+	obs := make([]c05Obs, len(items))
+	emit := make([]bool, len(items))
+	var wg sync.WaitGroup
+	wg.Add(1)
+	go func() {
+		defer wg.Done()
+		ro, rok := c05RunAllReal(t, dir, real, e.Slow)
+		for k, i := range realIdx {
+			obs[i], emit[i] = ro[k], rok[k]
+		}
+	}()
+	fo := c05RunAll(t, dir, fake, e.Slow)
+	for k, i := range fakeIdx {
+		obs[i], emit[i] = fo[k], true
+	}
+	wg.Wait()
 	for i := range items {
+		if !emit[i] {
+			continue
+		}
 		in, o := items[i].in, obs[i]
 		e.Emit(items[i].class, in, o, func(id int) string { return c05CoqCase(id, in, o) })
 	}
